@@ -32,16 +32,16 @@ SAN = "-fsanitize=address,undefined -fno-sanitize-recover=undefined"
 
 VARIANTS = {
     # name: (cxx, cc, cflags, ldflags)
-    "opt":    (GXX, GCC, "-O2 -g1", ""),
+    "opt":    (GXX, GCC, "-O3 -g1", ""),  # upstream CMake rewrites -O2 to -O3; g++ 12 -O2 miscompiles NNEvaluator::eval (see notes/C07.md)
     "asan":   (GXX, GCC, "-O1 -g1 -fno-omit-frame-pointer " + SAN, SAN),
     "tsan":   (GXX, GCC, "-O1 -g1 -fsanitize=thread", "-fsanitize=thread"),
     "fuzz":   (CLANGXX, CLANG,
                "-O1 -g -fno-omit-frame-pointer -fsanitize=fuzzer-no-link,address,undefined "
                "-fno-sanitize-recover=undefined",
                "-fsanitize=fuzzer,address,undefined"),
-    "ssse3":  (GXX, GCC, "-O2 -g1 -mssse3 -DUSE_SSSE3", ""),
-    "avx2":   (GXX, GCC, "-O2 -g1 -mssse3 -mavx2 -DUSE_SSSE3 -DUSE_AVX2", ""),
-    "avx512": (GXX, GCC, "-O2 -g1 -mssse3 -mavx2 -mavx512f -mavx512bw -mavx512vnni "
+    "ssse3":  (GXX, GCC, "-O3 -g1 -mssse3 -DUSE_SSSE3", ""),
+    "avx2":   (GXX, GCC, "-O3 -g1 -mssse3 -mavx2 -DUSE_SSSE3 -DUSE_AVX2", ""),
+    "avx512": (GXX, GCC, "-O3 -g1 -mssse3 -mavx2 -mavx512f -mavx512bw -mavx512vnni "
                           "-DUSE_SSSE3 -DUSE_AVX2 -DUSE_AVX512", ""),
 }
 
